@@ -281,3 +281,11 @@ def test_fixed_F24_F25_pbvi_horizon_for_constant_rewards_and_large_thresholds():
     assert -10.0 <= v <= -9.0
     p = _two_state_pomdp({(0, 'a'): 1.0, (0, 'b'): 0.0, (1, 'a'): -1.0, (1, 'b'): 0.0})
     PointBasedValueIteration(min_belief_expansions=1, max_belief_expansions=3, value_convergence_epsilon=10.0).plan_on(p)
+
+
+def test_fixed_F26_value_iteration_policy_at_trap_states_with_partial_action_sets():
+    from msdm.algorithms import ValueIteration
+    m = Dict2MDP({0: {'a': {1: 1.0}, 'c': {2: 1.0}}, 1: {'a': {1: 1.0}}, 2: {'a': {2: 1.0}, 'b': {2: 1.0}}},
+                 {(0, 'a'): -1.0, (0, 'c'): -2.0, (2, 'a'): -1.0, (2, 'b'): -1.0}, {0: 1.0}, absorbing=[1])
+    pol = ValueIteration().plan_on(m).policy
+    assert {a: p for a, p in pol[2].items() if p > 0} == {'a': 0.5, 'b': 0.5}
